@@ -4,18 +4,60 @@
      CHist  a concurrent history recorded from the real containers with forced interleavings:
             the observed events (Inv, Res, f-called, Range callback) and the operation records
      CRace  one start+shutdown of a real container under the Go race detector
-            (outcome 0 = no report, 1 = DATA RACE reported, 2 = panic/crash/hang), with the number of failing scanners *)
-From Coq Require Import List Arith Bool.
+            (outcome 0 = no report, 1 = DATA RACE reported, 2 = panic/crash/hang), with the number of failing scanners
+     CStress one observation of G goroutines that were released together and ran their operation lists on ONE
+            shared container truly in parallel (no synchronisation added by the driver; -race build and normal
+            build): the per-goroutine results, the contents after the join and a sequential coda *)
+From Coq Require Import List Arith Bool Uint63.
 From IocVerif Require Import Model.SyncMap.
 Import ListNotations.
+
+(* ---------- the whole exported API of the containers, on top of the sequential specification ----------
+   XP o          a point operation of SyncMap.op, or a full Range / ToArray / ForEach (ORange)
+   XLength       Length()                      = number of elements
+   XRangeStop    Range whose callback returns false at the first pair
+   XExistsAny / XExistsAll / XPutAll / XRemoveAll   the variadic set operations = iterated Exists / Put / Remove *)
+Inductive xop : Type :=
+| XP (o : op)
+| XLength
+| XRangeStop
+| XExistsAny (ks : list nat)
+| XExistsAll (ks : list nat)
+| XPutAll (ks : list nat)
+| XRemoveAll (ks : list nat).
+
+Definition has (m : smap) (k : nat) : bool :=
+  match snd (spec m (OExists k)) with RBool b => b | _ => false end.
+
+Definition xspec (m : smap) (x : xop) : smap * ret :=
+  match x with
+  | XP o => spec m o
+  | XLength => (m, RVal (Some (length m)))
+  | XRangeStop => (m, RList (firstn 1 m))
+  | XExistsAny ks => (m, RBool (existsb (has m) ks))
+  | XExistsAll ks => (m, RBool (forallb (has m) ks))
+  | XPutAll ks => (fold_left (fun a k => fst (spec a (OPut k))) ks m, RNone)
+  | XRemoveAll ks => (fold_left (fun a k => fst (spec a (ORemove k))) ks m, RNone)
+  end.
+
+Record stress : Type := mkStress {
+  s_outcome : nat;                        (* 0 = ran to the end, 1 = DATA RACE reported, 2 = panic / crash / hang *)
+  s_width : nat;                          (* W > 0: goroutine g touches only the keys k with k / W = g;  0: shared keys *)
+  s_nkeys : nat;                          (* key universe 0 .. nkeys-1 *)
+  s_init : list (nat * nat);              (* contents installed before the goroutines start *)
+  s_runs : list (list (xop * ret));       (* per goroutine: its operations with their results, in program order *)
+  s_final : smap;                         (* contents after the join (full Range / ToArray, sorted by key) *)
+  s_fin : list (xop * ret)                (* sequential coda after the join *)
+}.
 
 Inductive case : Type :=
 | CSeq (id : nat) (ops : list op) (rets : list ret)
 | CHist (id : nat) (progs : list (list op)) (obs : list sevent) (recs : list oprec)
-| CRace (id : nat) (outcome : nat) (nfail : nat).
+| CRace (id : nat) (outcome : nat) (nfail : nat)
+| CStress (id : nat) (s : stress).
 
 Definition cid (c : case) : nat :=
-  match c with CSeq i _ _ => i | CHist i _ _ _ => i | CRace i _ _ => i end.
+  match c with CSeq i _ _ => i | CHist i _ _ _ => i | CRace i _ _ => i | CStress i _ => i end.
 
 Fixpoint seq_rets (m : smap) (ops : list op) : list ret :=
   match ops with [] => [] | o :: r => snd (spec m o) :: seq_rets (fst (spec m o)) r end.
@@ -27,12 +69,339 @@ Fixpoint rets_eqb (a b : list ret) : bool :=
   | _, _ => false
   end.
 
+(* ---------- stress observations ---------------------------------------------------------------------- *)
+
+Definition mem (k : nat) (l : list nat) : bool := existsb (Nat.eqb k) l.
+Definition smap_eqb (a b : smap) : bool := ret_eqb (RList a) (RList b).
+Definition oeqb (a b : option nat) : bool := ret_eqb (RVal a) (RVal b).
+
+(* canonical: keys strictly increasing (so no key is reported twice) *)
+Fixpoint canon_from (lo : nat) (l : smap) : bool :=
+  match l with [] => true | (k, _) :: r => Nat.leb lo k && canon_from (S k) r end.
+Definition canon (l : smap) : bool := canon_from 0 l.
+
+Definition xkeys (x : xop) : list nat :=
+  match x with
+  | XP (OLoad k) | XP (ODelete k) | XP (OPut k) | XP (OExists k) | XP (ORemove k) => [k]
+  | XP (OStore k _) | XP (OLoadOrStore k _) | XP (OLoadOrStoreFn k _) => [k]
+  | XP ORange | XLength | XRangeStop => []
+  | XExistsAny ks | XExistsAll ks | XPutAll ks | XRemoveAll ks => ks
+  end.
+(* what an operation may write / delete *)
+Definition xwrites (x : xop) : list (nat * nat) :=
+  match x with
+  | XP (OStore k v) | XP (OLoadOrStore k v) | XP (OLoadOrStoreFn k v) => [(k, v)]
+  | XP (OPut k) => [(k, 0)]
+  | XPutAll ks => map (fun k => (k, 0)) ks
+  | _ => []
+  end.
+Definition xplain (x : xop) : list nat :=          (* writers that are not load-or-store *)
+  match x with
+  | XP (OStore k _) | XP (OPut k) => [k]
+  | XPutAll ks => ks
+  | _ => []
+  end.
+Definition xdeletes (x : xop) : list nat :=
+  match x with XP (ODelete k) | XP (ORemove k) => [k] | XRemoveAll ks => ks | _ => [] end.
+Definition xmutates (x : xop) : bool :=
+  match xwrites x, xdeletes x with [], [] => false | _, _ => true end.
+
+Definition init_map (s : stress) : smap := fold_left (fun a p => put a (fst p) (snd p)) (s_init s) [].
+Definition xfinal (m : smap) (run : list (xop * ret)) : smap := fold_left (fun a xr => fst (xspec a (fst xr))) run m.
+
+(* (a) DISJOINT key ranges (W > 0): everything a goroutine observes about its own keys is determined by its own
+       program (sequential specification run on the goroutine's own part of the contents); the contents after the
+       join are those of the programs run one after the other.  Range / ToArray / ForEach / Length also see the
+       other goroutines' keys: only their own-key part is determined (Range is not a snapshot, KF-C20c). *)
+Fixpoint dis_run (own : nat -> bool) (others : nat) (m : smap) (run : list (xop * ret)) : bool :=
+  match run with
+  | [] => true
+  | (x, r) :: rest =>
+      if forallb own (xkeys x) then
+        if (match x, r with
+            | XP ORange, RList l => canon l && smap_eqb (filter (fun p => own (fst p)) l) m
+            | XLength, RVal (Some n) => Nat.leb (length m) n && Nat.leb n (length m + others)
+            | XRangeStop, RList l =>
+                Nat.leb (length l) 1 && (match m with [] => true | _ => Nat.eqb (length l) 1 end)
+                && forallb (fun p => if own (fst p) then oeqb (get m (fst p)) (Some (snd p)) else true) l
+            | _, _ => ret_eqb (snd (xspec m x)) r
+            end)
+        then dis_run own others (fst (xspec m x)) rest else false
+      else false
+  end.
+
+Definition dis_ok (s : stress) : bool :=
+  let W := s_width s in
+  let G := length (s_runs s) in
+  let m0 := init_map s in
+  Nat.eqb (s_nkeys s) (G * W)
+  && forallb (fun p => Nat.ltb (fst p) (s_nkeys s)) (s_init s)
+  && forallb (fun g => let own := fun k => Nat.eqb (k / W) g in
+                       dis_run own (s_nkeys s - W) (filter (fun p => own (fst p)) m0) (nth g (s_runs s) []))
+             (seq 0 G)
+  && smap_eqb (fold_left xfinal (s_runs s) m0) (s_final s).
+
+(* (b) the sequential coda after the join is the sequential specification run from the joined contents *)
+Fixpoint fin_run (m : smap) (fin : list (xop * ret)) : bool :=
+  match fin with
+  | [] => true
+  | (x, r) :: rest =>
+      if (match x, r with
+          | XRangeStop, RList l =>
+              Nat.eqb (length l) (Nat.min 1 (length m)) && forallb (fun p => oeqb (get m (fst p)) (Some (snd p))) l
+          | _, _ => ret_eqb (snd (xspec m x)) r
+          end)
+      then fin_run (fst (xspec m x)) rest else false
+  end.
+
+(* (c) small histories of point operations on shared keys: some merge of the per-goroutine result sequences must be
+       a legal sequential history (SyncMap.merge_search, the complete refuter of linearizability) *)
+Definition point_of (xr : xop * ret) : option (op * ret) :=
+  match fst xr with
+  | XP ORange => None
+  | XP o => Some (o, snd xr)
+  | _ => None
+  end.
+Fixpoint tag_runs (g : nat) (runs : list (list (xop * ret))) : option (list (nat * (op * ret))) :=
+  match runs with
+  | [] => Some []
+  | run :: rest =>
+      match tag_runs (S g) rest with
+      | None => None
+      | Some R =>
+          (fix go (l : list (xop * ret)) : option (list (nat * (op * ret))) :=
+             match l with
+             | [] => Some R
+             | xr :: l' => match point_of xr, go l' with Some p, Some R' => Some ((g, p) :: R') | _, _ => None end
+             end) run
+      end
+  end.
+Definition sc_limit : nat := 9.
+Definition sc_ok (s : stress) : bool :=
+  match tag_runs 0 (s_runs s) with
+  | Some R => if Nat.leb (length R) sc_limit then merge_search (S (length R)) (init_map s) R else true
+  | None => true
+  end.
+
+Definition shape_ok (s : stress) : bool :=
+  Nat.eqb (s_outcome s) 0 && canon (s_final s) && forallb (fun p => Nat.ltb (fst p) (s_nkeys s)) (s_final s).
+
+Definition stress_check (s : stress) : bool :=
+  if shape_ok s then
+    (if Nat.eqb (s_width s) 0 then true else dis_ok s) && fin_run (s_final s) (s_fin s) && sc_ok s
+  else false.
+
+(* (d) per-key consequences of atomicity that hold for EVERY workload (shared keys included).  Independent of the
+       step model: they only use which operations the case contains.
+         - a key that no operation of the case deletes ("del-free") is present from the moment a write of it
+           completed: the writing goroutine's later Load / Exists / LoadOrStore find it, its later full
+           Range / ToArray / ForEach report it, its later Length() counts it, and it is in the joined contents
+         - a value reported for a key is a value some operation of the case writes to that key; a key nobody
+           writes is never reported
+         - Length() lies between the number of such keys and the number of keys the case writes at all
+         - at most one load-or-store wins a del-free key; if load-or-stores are its only writers, exactly one
+           wins and every value ever reported for the key is the winner's *)
+(* the summaries of a case are computed once (vm_compute is call-by-value) and handed down as section variables *)
+Fixpoint nub_pairs (l : list (nat * nat)) : list (nat * nat) :=
+  match l with
+  | [] => []
+  | p :: r =>
+      let r' := nub_pairs r in
+      if lexistsb (fun q => if Nat.eqb (fst p) (fst q) then Nat.eqb (snd p) (snd q) else false) r' then r' else p :: r'
+  end.
+
+(* every (key, value) an operation reported *)
+Definition reported (xr : xop * ret) : list (nat * nat) :=
+  match xr with
+  | (XP (OLoad k), RVal (Some v)) => [(k, v)]
+  | (XP (OLoadOrStore k _), RLos y _) | (XP (OLoadOrStoreFn k _), RLos y _) => [(k, y)]
+  | (_, RList l) => l
+  | _ => []
+  end.
+Definition xwins (k : nat) (xr : xop * ret) : bool :=
+  match fst xr with XP o => wins k (o, snd xr) | _ => false end.
+
+Section StressInv.
+  Variable nkeys : nat.
+  Variable W_all : list (nat * nat).     (* (key, value) pairs the case writes: contents at the start + writers, no duplicates *)
+  Variable DF : list nat.                (* the del-free keys: no operation of the case deletes them *)
+  Variable WK : list nat.                (* the keys the case writes at all *)
+  Definition delfree (k : nat) : bool := mem k DF.
+  Definition sane (k v : nat) : bool :=
+    lexistsb (fun p => if Nat.eqb k (fst p) then Nat.eqb v (snd p) else false) W_all.   (* lazy: vm_compute is call-by-value *)
+  Definition written (k : nat) : bool := mem k WK.
+  Definition sane_list (l : smap) : bool :=
+    canon l && forallb (fun p => sane (fst p) (snd p) && Nat.ltb (fst p) nkeys) l.
+
+  Definition obs_ok (mine : list nat) (x : xop) (r : ret) : bool :=
+    match x, r with
+    | XP (OLoad k), RVal None => negb (mem k mine)
+    | XP (OLoad k), RVal (Some v) => sane k v
+    | XP (OExists k), RBool b => if b then written k else negb (mem k mine)
+    | XP (OLoadOrStore k v), RLos y loaded | XP (OLoadOrStoreFn k v), RLos y loaded =>
+        if loaded then sane k y else Nat.eqb y v && negb (mem k mine)
+    | XP ORange, RList l => sane_list l && forallb (fun k => mem k (keys_of l)) mine
+    | XLength, RVal (Some n) => Nat.leb (length mine) n && Nat.leb n (length WK)
+    | XRangeStop, RList l =>
+        sane_list l && Nat.leb (length l) 1 && (match mine with [] => true | _ => Nat.eqb (length l) 1 end)
+    | XExistsAny ks, RBool b => if b then existsb written ks else negb (existsb (fun k => mem k mine) ks)
+    | XExistsAll ks, RBool b => if b then forallb written ks else negb (forallb (fun k => mem k mine) ks)
+    | XP (OStore _ _), RNone | XP (ODelete _), RNone | XP (OPut _), RNone | XP (ORemove _), RNone => true
+    | XPutAll _, RNone | XRemoveAll _, RNone => true
+    | _, _ => false
+    end.
+
+  Definition learn_keys (mine : list nat) (ks : list nat) : list nat :=
+    fold_left (fun a k => if delfree k && negb (mem k a) then k :: a else a) ks mine.
+  Definition learn (mine : list nat) (x : xop) : list nat := learn_keys mine (map fst (xwrites x)).
+
+  Fixpoint inv_run (mine : list nat) (run : list (xop * ret)) : bool :=
+    match run with
+    | [] => true
+    | (x, r) :: rest => if obs_ok mine x r then inv_run (learn mine x) rest else false
+    end.
+
+  Variable final : smap.
+  Variable allxr : list (xop * ret).     (* every operation of the parallel phase with its result *)
+  Variable PK : list nat.                (* keys with a writer that is not a load-or-store (or present at the start) *)
+  Variable REP : list (nat * nat).       (* every (key, value) reported in the parallel phase, no duplicates *)
+
+  Definition key_ok (k : nat) : bool :=
+    if delfree k && written k then
+      let nwin := length (filter (xwins k) allxr) in
+      has final k
+      && (if mem k PK then Nat.leb nwin 1
+          else Nat.eqb nwin 1
+               && forallb (fun p => if Nat.eqb (fst p) k then oeqb (get final k) (Some (snd p)) else true) REP)
+    else true.
+End StressInv.
+
+Definition inv_ok (s : stress) : bool :=
+  let nkeys := s_nkeys s in
+  let univ := seq 0 nkeys in
+  let allxr := concat (s_runs s) in
+  let allx := map fst allxr in
+  let W_all := nub_pairs (s_init s ++ flat_map xwrites allx) in
+  let D_all := flat_map xdeletes allx in
+  let DF := filter (fun k => negb (mem k D_all)) univ in
+  let WK := filter (fun k => existsb (fun p => Nat.eqb k (fst p)) W_all) univ in
+  let P_all := map fst (s_init s) ++ flat_map xplain allx in
+  let PK := filter (fun k => mem k P_all) univ in
+  let REP := nub_pairs (flat_map reported allxr) in
+  let mine0 := learn_keys DF [] (map fst (s_init s)) in
+  sane_list nkeys W_all (s_final s)
+  && forallb (inv_run nkeys W_all DF WK mine0) (s_runs s)
+  && forallb (key_ok DF WK (s_final s) allxr PK REP) univ.
+
+Definition stress_oracle (s : stress) : bool :=
+  if stress_check s then inv_ok s else false.
+
+(* ---------- transport of stress observations ---------------------------------------------------------------
+   Everything above works on the [stress] record.  Only the cases FILE is compact: a stress observation is
+   serialised to a byte stream ([p_stress] is the format) that is packed into primitive 63-bit integers (up to
+   seven bytes per integer, most significant first, under a leading 1 marker), because Coq elaborates a literal
+   record / list term at ~12 us per character (a 1 600-operation observation = 0.6 s) while unpacking and decoding
+   inside vm_compute is cheap.  A stream that does not decode is an observation with outcome 2: it fails
+   [stress_check] and [stress_oracle], it is never dropped.  [SB_example] ties the format to a literal term. *)
+Fixpoint int_bits_to_nat (k : nat) (b : int) : nat :=
+  match k with
+  | O => 0
+  | S k' => (if Uint63.eqb (Uint63.land b 1) 0 then 0 else 1) + 2 * int_bits_to_nat k' (Uint63.lsr b 1)
+  end.
+Fixpoint unpack_int (fuel : nat) (v : int) (acc : list nat) : list nat :=
+  match fuel with
+  | O => acc
+  | S f => if Uint63.leb v 1 then acc
+           else unpack_int f (Uint63.lsr v 8) (int_bits_to_nat 8 (Uint63.land v 255) :: acc)
+  end.
+Definition unpack (l : list int) : list nat := flat_map (fun v => unpack_int 8 v []) l.
+
+Definition P (A : Type) : Type := list nat -> option (A * list nat).
+Definition p_bind {A C : Type} (p : P A) (f : A -> P C) : P C :=
+  fun s => match p s with Some (a, r) => f a r | None => None end.
+Definition p_ret {A : Type} (a : A) : P A := fun s => Some (a, s).
+(* a number: one byte < 255, or 255 followed by two bytes (big endian) *)
+Definition p_num : P nat := fun s =>
+  match s with
+  | 255 :: hi :: lo :: r => Some (hi * 256 + lo, r)
+  | 255 :: _ => None
+  | a :: r => Some (a, r)
+  | [] => None
+  end.
+Fixpoint p_rep {A : Type} (p : P A) (n : nat) : P (list A) :=
+  match n with
+  | O => p_ret []
+  | S k => p_bind p (fun x => p_bind (p_rep p k) (fun xs => p_ret (x :: xs)))
+  end.
+Definition p_list {A : Type} (p : P A) : P (list A) := p_bind p_num (p_rep p).
+Definition p_pair : P (nat * nat) := p_bind p_num (fun k => p_bind p_num (fun v => p_ret (k, v))).
+Definition p1 {A} (f : nat -> A) : P A := p_bind p_num (fun k => p_ret (f k)).
+Definition p2 {A} (f : nat -> nat -> A) : P A := p_bind p_num (fun k => p_bind p_num (fun v => p_ret (f k v))).
+Definition pl {A} (f : list nat -> A) : P A := p_bind (p_list p_num) (fun ks => p_ret (f ks)).
+
+Definition p_xop : P xop :=
+  p_bind p_num (fun code =>
+    match code with
+    | 0 => p1 (fun k => XP (OLoad k))
+    | 1 => p2 (fun k v => XP (OStore k v))
+    | 2 => p2 (fun k v => XP (OLoadOrStore k v))
+    | 3 => p2 (fun k v => XP (OLoadOrStoreFn k v))
+    | 4 => p1 (fun k => XP (ODelete k))
+    | 5 => p_ret (XP ORange)
+    | 6 => p1 (fun k => XP (OPut k))
+    | 7 => p1 (fun k => XP (OExists k))
+    | 8 => p1 (fun k => XP (ORemove k))
+    | 9 => p_ret XLength
+    | 10 => p_ret XRangeStop
+    | 11 => pl XExistsAny
+    | 12 => pl XExistsAll
+    | 13 => pl XPutAll
+    | 14 => pl XRemoveAll
+    | _ => fun _ => None
+    end).
+Definition p_ret_ : P ret :=
+  p_bind p_num (fun code =>
+    match code with
+    | 0 => p_ret RNone
+    | 1 => p_ret (RVal None)
+    | 2 => p1 (fun v => RVal (Some v))
+    | 3 => p1 (fun v => RLos v false)
+    | 4 => p1 (fun v => RLos v true)
+    | 5 => p_ret (RBool false)
+    | 6 => p_ret (RBool true)
+    | 7 => p_bind (p_list p_pair) (fun l => p_ret (RList l))
+    | _ => fun _ => None
+    end).
+Definition p_xr : P (xop * ret) := p_bind p_xop (fun x => p_bind p_ret_ (fun r => p_ret (x, r))).
+
+Definition p_stress : P stress :=
+  p_bind p_num (fun outcome => p_bind p_num (fun width => p_bind p_num (fun nkeys =>
+  p_bind (p_list p_pair) (fun init => p_bind (p_list (p_list p_xr)) (fun runs =>
+  p_bind (p_list p_pair) (fun final => p_bind (p_list p_xr) (fun fin =>
+  p_ret (mkStress outcome width nkeys init runs final fin)))))))).
+
+Definition SB (blob : list int) : stress :=
+  match p_stress (unpack blob) with
+  | Some (s, []) => s
+  | _ => mkStress 2 0 0 [] [] [] []
+  end.
+
+Example SB_example :
+  SB [72057602644707586; 72623846804499459; 143835001589400073; 72626071647878913; 84443631364210689;
+      73748647199714305; 74593106539971585; 256]%uint63
+  = mkStress 0 0 2 [(1, 9)]
+      [[(XP (OLoadOrStoreFn 0 300), RLos 300 false); (XP (OLoad 1), RVal (Some 9))];
+       [(XP ORange, RList [(0, 300); (1, 9)]); (XExistsAny [0; 1], RBool true)]]
+      [(0, 300); (1, 9)] [(XLength, RVal (Some 2)); (XP (ODelete 1), RNone)].
+Proof. vm_compute. reflexivity. Qed.
+
 (* model vs implementation *)
 Definition check_case (c : case) : bool :=
   match c with
   | CSeq _ ops rets => rets_eqb (seq_rets [] ops) rets
   | CHist _ progs obs _ => model_accepts true progs obs          (* a trace of the REPAIRED concrete step model *)
   | CRace _ outcome _ => Nat.eqb outcome 0                        (* the model (c20_race_free) predicts no race *)
+  | CStress _ s => stress_check s
   end.
 
 (* the property on the implementation's observation *)
@@ -54,10 +423,12 @@ Definition oracle_case (c : case) : bool :=
   | CSeq _ ops rets => rets_eqb (seq_rets [] ops) rets
   | CHist _ _ _ recs => linearizable_b recs && no_two_winners_b recs
   | CRace _ outcome _ => Nat.eqb outcome 0
+  | CStress _ s => stress_oracle s
   end.
 
 (* non-trivial: a script that reads back something it wrote (>= 4 ops); a history in which two operations of
-   different threads overlap in real time; a start with at least two failing scanners *)
+   different threads overlap in real time; a start with at least two failing scanners; a stress observation in
+   which at least two goroutines mutate the shared container *)
 Definition mutates (o : op) : bool :=
   match o with OLoad _ => false | ORange => false | OExists _ => false | _ => true end.
 Definition overlaps (a b : oprec) : bool :=
@@ -67,6 +438,7 @@ Definition nontrivial (c : case) : bool :=
   | CSeq _ ops _ => Nat.leb 4 (length ops) && existsb mutates ops && existsb (fun o => negb (mutates o)) ops
   | CHist _ _ _ recs => existsb (fun a => existsb (overlaps a) recs) recs
   | CRace _ _ nfail => Nat.leb 2 nfail
+  | CStress _ s => Nat.leb 2 (length (filter (fun run => existsb (fun xr => xmutates (fst xr)) run) (s_runs s)))
   end.
 
 Definition mismatches (cs : list case) : list nat := map cid (filter (fun c => negb (check_case c)) cs).
